@@ -63,18 +63,24 @@ def guarded(fn):
 
 
 def syms(*names):
-    return [z3.BitVec(n, W) for n in names]
+    return [mkint(n) for n in names]
+
+
+def new_state():
+    st = State()
+    st.pc += list(RANGE)
+    return st
 
 
 def iter_state(ex, st, A, I, B, N, J):
     """arbitrary valid iterator state: index <= index_back <= N, exactly [index, index_back) alive"""
-    st.pc += [z3.ULE(I, B), z3.ULE(B, N)]
-    st.status[A] = z3.If(z3.And(z3.ULE(I, J), z3.ULT(J, B)), LIVE, EXTERN)
+    st.pc += [ULE(I, B), ULE(B, N)]
+    st.status[A] = z3.If(z3.And(ULE(I, J), ULT(J, B)), LIVE, EXTERN)
     return st.new_cell({0: A, 1: I, 2: B})
 
 
 def end_no_leak(ex, st, A, N, J, where='end of scenario'):
-    ex.require(st, z3.Implies(z3.ULT(J, N), z3.Or(st.status[A] == DROPPED, st.status[A] == EXTERN, st.status[A] == STORED)),
+    ex.require(st, z3.Implies(ULT(J, N), z3.Or(st.status[A] == DROPPED, st.status[A] == EXTERN, st.status[A] == STORED)),
                'element neither dropped nor handed to the caller when everything is gone (leak)', where)
 
 
@@ -87,7 +93,7 @@ def iter_skip(fns, src, nmax, which='nth', name=None):
     res = Result(name or 'iter.' + which, ['C05', 'C06', 'C03'], 'all 64-bit N, index <= index_back <= N, skip count n any usize; loop-free')
     ex = Exec(fns, src, J, N, nmax=nmax)
     A = Arr('A', N)
-    st = State()
+    st = new_state()
     it = iter_state(ex, st, A, I, B, N, J)
     fn = ex.find_fn('<GenericArrayIter<T, N> as %s>::%s' % ('Iterator' if which == 'nth' else 'DoubleEndedIterator', which))
     t0, paths, unw = time.time(), 0, 0
@@ -99,20 +105,20 @@ def iter_skip(fns, src, nmax, which='nth', name=None):
             # C06 post-state equations
             cur = s2.get(it, ())
             if which == 'nth':
-                ex.require(s2, cur[1] == z3.If(z3.ULT(n, ln), I + n + 1, B), 'nth: index after the call differs from the queue model', 'post')
+                ex.require(s2, cur[1] == z3.If(ULT(n, ln), I + n + 1, B), 'nth: index after the call differs from the queue model', 'post')
                 ex.require(s2, cur[2] == B, 'nth moved the back index', 'post')
                 if val.variant == 'Some':
-                    ex.require(s2, z3.And(z3.ULT(n, ln), val.fields[0].idx == I + n), 'nth returned an element other than remaining[n]', 'post')
+                    ex.require(s2, z3.And(ULT(n, ln), val.fields[0].idx == I + n), 'nth returned an element other than remaining[n]', 'post')
                 else:
-                    ex.require(s2, z3.UGE(n, ln), 'nth returned None although n < len', 'post')
+                    ex.require(s2, UGE(n, ln), 'nth returned None although n < len', 'post')
             else:
-                ex.require(s2, cur[2] == z3.If(z3.ULT(n, ln), B - n - 1, I), 'nth_back: index_back after the call differs from the queue model', 'post')
+                ex.require(s2, cur[2] == z3.If(ULT(n, ln), B - n - 1, I), 'nth_back: index_back after the call differs from the queue model', 'post')
                 ex.require(s2, cur[1] == I, 'nth_back moved the front index', 'post')
                 if val.variant == 'Some':
-                    ex.require(s2, z3.And(z3.ULT(n, ln), val.fields[0].idx == B - 1 - n), 'nth_back returned an element other than remaining[len-1-n]', 'post')
+                    ex.require(s2, z3.And(ULT(n, ln), val.fields[0].idx == B - 1 - n), 'nth_back returned an element other than remaining[len-1-n]', 'post')
                 else:
-                    ex.require(s2, z3.UGE(n, ln), 'nth_back returned None although n < len', 'post')
-            ex.require(s2, z3.And(z3.ULE(cur[1], cur[2]), z3.ULE(cur[2], N)), 'iterator invariant index <= index_back <= N broken', 'post')
+                    ex.require(s2, UGE(n, ln), 'nth_back returned None although n < len', 'post')
+            ex.require(s2, z3.And(ULE(cur[1], cur[2]), ULE(cur[2], N)), 'iterator invariant index <= index_back <= N broken', 'post')
             ex.ev_extern(s2, val)
         s2.events.append('[%s] owner drops the iterator' % kind)
         for (s3, k3, _) in ex.run_fn(s2, ex.pick(ex.index[('Drop', 'GenericArrayIter', 'drop')]), [Ref(it, ())]):
@@ -128,7 +134,7 @@ def iter_simple(fns, src, nmax, which='next', name=None):
     res = Result(name or 'iter.' + which, ['C06', 'C05', 'C03'], 'all 64-bit N, index <= index_back <= N; loop-free')
     ex = Exec(fns, src, J, N, nmax=nmax)
     A = Arr('A', N)
-    st = State()
+    st = new_state()
     it = iter_state(ex, st, A, I, B, N, J)
     ln = B - I
     trait = {'next': 'Iterator', 'next_back': 'DoubleEndedIterator', 'len': 'ExactSizeIterator', 'size_hint': 'Iterator', 'count': 'Iterator',
@@ -173,7 +179,7 @@ def iter_simple(fns, src, nmax, which='next', name=None):
             elif which in ('as_slice', 'as_mut_slice'):
                 ex.require(s2, z3.And(val.arr is A, val.start == I, val.end == B), 'as_slice is not exactly the remaining range', 'post')
             if cur is not None:
-                ex.require(s2, z3.And(z3.ULE(cur[1], cur[2]), z3.ULE(cur[2], N)), 'iterator invariant index <= index_back <= N broken', 'post')
+                ex.require(s2, z3.And(ULE(cur[1], cur[2]), ULE(cur[2], N)), 'iterator invariant index <= index_back <= N broken', 'post')
             if isinstance(val, Enum):
                 ex.ev_extern(s2, val)
         if byval or which == 'drop':
@@ -189,7 +195,7 @@ def iter_simple(fns, src, nmax, which='next', name=None):
 
 # ----------------------------------------------------------------------------------------------- C04
 def bounded(ex, st, N, nmax):
-    st.pc.append(z3.ULE(N, bv(nmax)))
+    st.pc.append(ULE(N, bv(nmax)))
 
 
 def out_arrays(st):
@@ -198,7 +204,7 @@ def out_arrays(st):
 
 def end_checks(ex, s2, kind, val, inputs, N, J, where='end'):
     """generic end-of-scenario obligations for an operation that consumes `inputs` (arrays) and builds outputs"""
-    inA = z3.ULT(J, N)
+    inA = ULT(J, N)
     if kind == 'ret':
         out = val
         if isinstance(out, BoxVal):
@@ -226,7 +232,7 @@ def op_generate(fns, src, nmax, boxed=False, name=None):
                  'N <= %d symbolic (for_each unrolled, unwinding assertion on), the generator may panic at every call' % nmax)
     ex = Exec(fns, src, J, N, nmax=nmax)
     ex.V = Arr('F', bv(2 ** 63))
-    st = State()
+    st = new_state()
     bounded(ex, st, N, nmax)
     st.pc.append((ex.SZ == 0) == z3.Or(N == 0, ex.S == 0))
     if boxed:
@@ -248,7 +254,7 @@ def op_map(fns, src, nmax, name=None):
     ex = Exec(fns, src, J, N, nmax=nmax)
     ex.V = Arr('F', bv(2 ** 63))
     A = Arr('A', N)
-    st = State()
+    st = new_state()
     bounded(ex, st, N, nmax)
     st.status[A] = LIVE
     fn = ex.pick(ex.index[('FunctionalSequence', 'GenericArray', 'map')])
@@ -267,7 +273,7 @@ def op_fold(fns, src, nmax, name=None):
     ex = Exec(fns, src, J, N, nmax=nmax)
     ex.V = Arr('F', bv(2 ** 63))
     A = Arr('A', N)
-    st = State()
+    st = new_state()
     bounded(ex, st, N, nmax)
     st.status[A] = LIVE
     fn = ex.pick(ex.index[('FunctionalSequence', 'GenericArray', 'fold')])
@@ -289,7 +295,7 @@ def op_zip_owned(fns, src, nmax, name=None):
     ex = Exec(fns, src, J, N, nmax=nmax)
     ex.V = Arr('F', bv(2 ** 63))
     A, Bv = Arr('Right', N), Arr('Left', N)
-    st = State()
+    st = new_state()
     bounded(ex, st, N, nmax)
     st.status[A] = LIVE
     st.status[Bv] = LIVE
@@ -316,7 +322,7 @@ def iter_clone(fns, src, nmax, name=None):
     ex = Exec(fns, src, J, N, nmax=nmax)
     ex.V = Arr('Cl', bv(2 ** 63))
     A = Arr('A', N)
-    st = State()
+    st = new_state()
     bounded(ex, st, N, nmax)
     it = iter_state(ex, st, A, I, B, N, J)
     fn = ex.pick(ex.index[('Clone', 'GenericArrayIter', 'clone')])
@@ -327,13 +333,13 @@ def iter_clone(fns, src, nmax, name=None):
         if kind == 'ret':
             C = val[0]
             ex.require(s2, val[2] - val[1] == B - I, 'clone has a different number of remaining elements', 'post')
-            ex.require(s2, z3.And(z3.ULE(val[1], val[2]), z3.ULE(val[2], N)), 'clone violates index <= index_back <= N', 'post')
-            ex.require(s2, z3.Implies(z3.ULT(J, N), (ex.stat(s2, C) == LIVE) == z3.And(z3.ULE(val[1], J), z3.ULT(J, val[2]))),
+            ex.require(s2, z3.And(ULE(val[1], val[2]), ULE(val[2], N)), 'clone violates index <= index_back <= N', 'post')
+            ex.require(s2, z3.Implies(ULT(J, N), (ex.stat(s2, C) == LIVE) == z3.And(ULE(val[1], J), ULT(J, val[2]))),
                        'clone claims a slot that is not initialised, or holds an initialised slot it does not claim', 'post')
         else:
             for C, stt in out_arrays(s2):
-                ex.require(s2, z3.Implies(z3.ULT(J, N), stt != LIVE), 'clones already written are leaked when a later T::clone panics', 'end(unwind)')
-        ex.require(s2, z3.Implies(z3.And(z3.ULE(I, J), z3.ULT(J, B)), s2.status[A] == LIVE), 'original iterator disturbed by clone', 'end')
+                ex.require(s2, z3.Implies(ULT(J, N), stt != LIVE), 'clones already written are leaked when a later T::clone panics', 'end(unwind)')
+        ex.require(s2, z3.Implies(z3.And(ULE(I, J), ULT(J, B)), s2.status[A] == LIVE), 'original iterator disturbed by clone', 'end')
         cur = s2.get(it, ())
         ex.require(s2, z3.And(cur[1] == I, cur[2] == B), 'original iterator position changed by clone', 'end')
         ex.require(s2, ex.stat(s2, ex.V) != HELD, 'a cloned value was lost', 'end')
@@ -347,16 +353,16 @@ def guard_drop(fns, src, nmax, which='ArrayConsumer', name=None):
     res = Result(name or 'drop(%s)' % which, ['C04', 'C05'], 'all 64-bit N, position <= N; loop-free')
     ex = Exec(fns, src, J, N, nmax=nmax)
     A = Arr('A', N)
-    st = State()
-    st.pc.append(z3.ULE(P, N))
+    st = new_state()
+    st.pc.append(ULE(P, N))
     if which == 'ArrayConsumer':
-        st.status[A] = z3.If(z3.UGE(J, P), LIVE, EXTERN)       # [position, N) still owned
+        st.status[A] = z3.If(UGE(J, P), LIVE, EXTERN)       # [position, N) still owned
         g = st.new_cell({0: A, 1: P})
     elif which == 'ArrayBuilder':
-        st.status[A] = z3.If(z3.ULT(J, P), LIVE, UNINIT)       # [0, position) built
+        st.status[A] = z3.If(ULT(J, P), LIVE, UNINIT)       # [0, position) built
         g = st.new_cell({0: A, 1: P})
     else:
-        st.status[A] = z3.If(z3.ULT(J, P), LIVE, UNINIT)
+        st.status[A] = z3.If(ULT(J, P), LIVE, UNINIT)
         g = st.new_cell({0: ArrRef(A), 1: P})
     fn = ex.pick(ex.index[('Drop', which, 'drop')])
     t0, paths, unw = time.time(), 0, 0
@@ -364,7 +370,7 @@ def guard_drop(fns, src, nmax, which='ArrayConsumer', name=None):
         paths += 1
         unw += kind == 'unwind'
         if kind == 'ret':
-            ex.require(s2, z3.Implies(z3.ULT(J, N), s2.status[A] != LIVE), 'guard left an element it owns alive (leak)', 'end')
+            ex.require(s2, z3.Implies(ULT(J, N), s2.status[A] != LIVE), 'guard left an element it owns alive (leak)', 'end')
     return finish(res, ex, t0, paths, unw)
 
 
@@ -375,9 +381,9 @@ def op_try_from_iter(fns, src, nmax, name=None):
     res = Result(name or 'try_from_iter', ['C04', 'C07'], 'N <= %d, source yields count <= N+2 items, size_hint unconstrained, next()/size_hint() may panic at every call' % nmax)
     ex = Exec(fns, src, J, N, nmax=nmax + 2)
     ex.V = Arr('Items', bv(2 ** 63))
-    st = State()
+    st = new_state()
     bounded(ex, st, N, nmax)
-    st.pc.append(z3.ULE(C, N + 2))
+    st.pc.append(ULE(C, N + 2))
     has_hi = z3.Bool('hint_has_hi')
     src_it = {'kind': 'source', 'count': C, 'yielded': bv(0), 'ended': z3.BoolVal(False),
               'hint': {0: LO, 1: Enum('Some', {0: HI})}}
@@ -391,7 +397,7 @@ def op_try_from_iter(fns, src, nmax, name=None):
         for (s2, kind, val) in ex.run_fn(s0, fn, [it]):
             paths += 1
             unw += kind == 'unwind'
-            inA = z3.ULT(J, N)
+            inA = ULT(J, N)
             if kind == 'ret':
                 if val.variant == 'Ok':
                     ex.require(s2, z3.Implies(inA, ex.stat(s2, val.fields[0]) == LIVE), 'Ok array has a slot that is not initialised', 'end')
@@ -407,4 +413,339 @@ def op_try_from_iter(fns, src, nmax, name=None):
             okret = kind == 'ret' and val.variant == 'Ok'
             ex.require(s2, z3.Or(ex.stat(s2, ex.V) == UNINIT, ex.stat(s2, ex.V) == DROPPED, ex.stat(s2, ex.V) == STORED),
                        'an item pulled from the source was lost (neither stored nor dropped)', 'end(%s)' % kind)
+    return finish(res, ex, t0, paths, unw)
+
+
+# ----------------------------------------------------------------------------------------------- C02 / C10 / C18: pointer arithmetic
+def ptr_exec(fns, src, nmax, ctfe):
+    N, J = syms('N', 'J')
+    ex = Exec(fns, src, J, N, nmax=nmax, ctfe=ctfe)
+    return ex, N, J
+
+
+@guarded
+def len_iff(fns, src, nmax, which='try_from_slice', ctfe=False, name=None):
+    """from_slice / try_from_slice / from_mut_slice / try_from_mut_slice / TryFrom: the reinterpreting cast is reached iff L == N
+    (ALL 64-bit N and L); otherwise panic / Err; the result points at the source's first element."""
+    ex, N, J = ptr_exec(fns, src, nmax, ctfe)
+    L, = syms('L')
+    res = Result(name or which, ['C02', 'C18'] if ctfe else ['C02'], 'all 64-bit N and slice lengths L%s; loop-free' % (' (MIR FOR CTFE body: what the const evaluator interprets)' if ctfe else ''))
+    S = Arr('S', L)
+    st = new_state()
+    if which.startswith('TryFrom'):
+        fn = ex.pick(ex.index[('TryFrom', '&mut GenericArray' if 'mut' in which else '&GenericArray', 'try_from')])
+    else:
+        fn = ex.find_fn('GenericArray::<T, N>::' + which)
+    if fn is None:
+        raise NotImplementedError('function not found: ' + which)
+    fallible = which.startswith('try') or which.startswith('TryFrom')
+    t0, paths, unw = time.time(), 0, 0
+    seen_ok = seen_rej = False
+    for (s2, kind, val) in ex.run_fn(st, fn, [Slice(S, bv(0), L)]):
+        paths += 1
+        unw += kind == 'unwind'
+        if kind == 'unwind':
+            seen_rej = True
+            ex.require(s2, L != N, 'panics although the slice has exactly N elements', 'panic path')
+            ex.require(s2, z3.BoolVal(not fallible), 'the fallible form panics instead of returning LengthError', 'panic path')
+            continue
+        r = val
+        if fallible:
+            if r.variant == 'Err':
+                seen_rej = True
+                ex.require(s2, L != N, 'LengthError although the slice has exactly N elements', 'Err path')
+                continue
+            r = r.fields[0]
+        seen_ok = True
+        ex.require(s2, L == N, 'slice of the wrong length reinterpreted as GenericArray<T, N>', 'Ok path')
+        ok_ptr = isinstance(r, ElemPtr) and r.arr is S
+        ex.require(s2, z3.BoolVal(ok_ptr), 'result does not point into the source slice', 'Ok path')
+        if ok_ptr:
+            ex.require(s2, r.idx == 0, 'result does not start at the source slice\'s first element', 'Ok path')
+    if not (seen_ok and seen_rej):
+        res.reason = 'vacuity: accepting path seen=%s rejecting path seen=%s' % (seen_ok, seen_rej)
+        res.verdict = 'inconclusive'
+    return finish(res, ex, t0, paths, unw)
+
+
+@guarded
+def views(fns, src, nmax, which='as_slice', ctfe=False, name=None):
+    """every borrowed view is (address of self, N)"""
+    ex, N, J = ptr_exec(fns, src, nmax, ctfe)
+    res = Result(name or which, ['C02', 'C01'], 'all 64-bit N; loop-free')
+    A = Arr('A', N)
+    st = new_state()
+    key = {'as_slice': None, 'as_mut_slice': None, 'deref': ('Deref', 'GenericArray', 'deref'), 'deref_mut': ('DerefMut', 'GenericArray', 'deref_mut'),
+           'as_ref': ('AsRef', 'GenericArray', 'as_ref'), 'as_mut': ('AsMut', 'GenericArray', 'as_mut'),
+           'borrow': ('Borrow', 'GenericArray', 'borrow'), 'borrow_mut': ('BorrowMut', 'GenericArray', 'borrow_mut'),
+           'into_iter_ref': ('IntoIterator', '&GenericArray', 'into_iter'), 'into_iter_mut': ('IntoIterator', '&mut GenericArray', 'into_iter')}[which]
+    fn = ex.find_fn('GenericArray::<T, N>::' + which) if key is None else ex.pick(ex.index[key])
+    t0, paths, unw = time.time(), 0, 0
+    for (s2, kind, val) in ex.run_fn(st, fn, [ArrRef(A)]):
+        paths += 1
+        unw += kind == 'unwind'
+        ex.require(s2, z3.BoolVal(kind == 'ret'), 'a borrowed view can panic', 'end')
+        if kind != 'ret':
+            continue
+        if isinstance(val, dict) and val.get('kind') == 'slice':
+            ex.require(s2, z3.And(z3.BoolVal(val['arr'] is A), val['pos'] == 0, val['end'] == N), 'by-reference iteration does not cover exactly elements 0..N of the array', 'end')
+        elif isinstance(val, Slice):
+            ex.require(s2, z3.And(z3.BoolVal(val.arr is A), val.start == 0, val.end == N), 'view is not (address of the array, N elements)', 'end')
+        else:
+            ex.require(s2, z3.BoolVal(False), 'view is not a slice of the array', 'end')
+    return finish(res, ex, t0, paths, unw)
+
+
+@guarded
+def chunks(fns, src, nmax, which='chunks_from_slice', ctfe=False, name=None):
+    """chunks_from_slice(_mut): floor(L/N) chunks + L mod N remainder covering the source exactly; N = 0: empty -> two empty results,
+    non-empty -> panic. ALL 64-bit N, L."""
+    ex, N, J = ptr_exec(fns, src, nmax, ctfe)
+    L, = syms('L')
+    res = Result(name or which, ['C10', 'C18'] if ctfe else ['C10'], 'all 64-bit N and slice lengths L%s; division via fresh quotient/remainder and the division lemma' % (' (MIR FOR CTFE body)' if ctfe else ''))
+    S = Arr('S', L)
+    st = new_state()
+    fn = ex.find_fn('GenericArray::<T, N>::' + which)
+    t0, paths, unw = time.time(), 0, 0
+    seen = set()
+    for (s2, kind, val) in ex.run_fn(st, fn, [Slice(S, bv(0), L)]):
+        paths += 1
+        unw += kind == 'unwind'
+        if kind == 'unwind':
+            seen.add('panic')
+            ex.require(s2, z3.And(N == 0, L != 0), 'panics for an input other than (N = 0, non-empty slice)', 'panic path')
+            continue
+        c, r = val[0], val[1]
+        if ex.feasible(s2, N == 0):
+            s0 = s2.clone()
+            s0.pc.append(N == 0)
+            seen.add('n0')
+            ex.require(s0, L == 0, 'N = 0 with a non-empty slice must panic', 'N=0 path')
+            ex.require(s0, z3.And(c.end == c.start, r.end == r.start), 'N = 0 with an empty slice must give two empty results', 'N=0 path')
+        if ex.feasible(s2, N != 0):
+            s1 = s2.clone()
+            s1.pc.append(N != 0)
+            seen.add('npos')
+            ok = c.arr is S and r.arr is S and c.stride is not None
+            ex.require(s1, z3.BoolVal(ok), 'results are not views of the source slice', 'N>0 path')
+            if ok:
+                q = mkint('qspec')
+                rr = mkint('rspec')
+                s1.pc += list(RANGE)
+                s1.pc += [ULT(rr, N), MULOK(q, N), ADDOK(q * N, rr), q * N + rr == L]
+                ex.require(s1, c.start == 0, 'chunks do not start at the source', 'N>0 path')
+                ex.require(s1, c.end - c.start == q * N, 'number of chunks is not floor(L / N)', 'N>0 path')
+                ex.require(s1, r.start == c.end, 'remainder is not adjacent to the chunks (gap or overlap)', 'N>0 path')
+                ex.require(s1, r.end - r.start == rr, 'remainder length is not L mod N', 'N>0 path')
+                ex.require(s1, r.end == L, 'parts do not cover the source exactly', 'N>0 path')
+    if not {'panic', 'n0', 'npos'} <= seen:
+        res.verdict, res.reason = 'inconclusive', 'vacuity: paths seen %s' % sorted(seen)
+    return finish(res, ex, t0, paths, unw)
+
+
+@guarded
+def unchunk(fns, src, nmax, which='slice_from_chunks', ctfe=False, name=None):
+    """slice_from_chunks(_mut): the inverse - same start, len * N elements (for a chunk slice that came from chunking: len * N <= usize::MAX)"""
+    ex, N, J = ptr_exec(fns, src, nmax, ctfe)
+    L, Q = syms('L', 'chunks')
+    res = Result(name or which, ['C10', 'C18'] if ctfe else ['C10'], 'all 64-bit N, chunk counts with chunks * N <= L (a valid chunk slice)')
+    S = Arr('S', L)
+    st = new_state()
+    st.pc += [MULOK(Q, N), ULE(Q * N, L)]
+    fn = ex.find_fn('GenericArray::<T, N>::' + which)
+    t0, paths, unw = time.time(), 0, 0
+    for (s2, kind, val) in ex.run_fn(st, fn, [Slice(S, bv(0), Q * N, stride=N)]):
+        paths += 1
+        unw += kind == 'unwind'
+        ex.require(s2, z3.BoolVal(kind == 'ret'), 'slice_from_chunks can panic on a valid chunk slice', 'end')
+        if kind == 'ret':
+            ok = isinstance(val, Slice) and val.arr is S
+            ex.require(s2, z3.BoolVal(ok), 'result is not a view of the same storage', 'end')
+            if ok:
+                ex.require(s2, z3.And(val.start == 0, val.end == Q * N), 'flattened slice is not (same start, chunks * N elements)', 'end')
+    return finish(res, ex, t0, paths, unw)
+
+
+# ----------------------------------------------------------------------------------------------- C13: delegation
+@guarded
+def delegation(fns, src, nmax, which='eq', name=None):
+    """eq / partial_cmp / cmp / hash / fmt return exactly the slice's method applied to as_slice(self)[, as_slice(other)] and the caller's own
+    Hasher / Formatter. The slice method is left uninterpreted, so agreement holds for ALL N, ALL T and ALL hasher / formatter states."""
+    N, J = syms('N', 'J')
+    res = Result(name or 'delegation.' + which, ['C13'], 'all 64-bit N, all element types, all hasher/formatter states (callee uninterpreted); loop-free')
+    ex = Exec(fns, src, J, N, nmax=nmax)
+    A, B = Arr('A', N), Arr('B', N)
+    st = new_state()
+    key = {'eq': ('PartialEq', 'GenericArray', 'eq'), 'partial_cmp': ('PartialOrd', 'GenericArray', 'partial_cmp'), 'cmp': ('Ord', 'GenericArray', 'cmp'),
+           'hash': ('Hash', 'GenericArray', 'hash'), 'fmt': ('Debug', 'GenericArray', 'fmt')}[which]
+    fn = ex.pick(ex.index[key])
+    state = Opaque('caller state (Hasher / Formatter)')
+    binary = which in ('eq', 'partial_cmp', 'cmp')
+    args = [ArrRef(A), ArrRef(B)] if binary else [ArrRef(A), state]
+    t0, paths, unw = time.time(), 0, 0
+    for (s2, kind, val) in ex.run_fn(st, fn, args):
+        paths += 1
+        unw += kind == 'unwind'
+        calls = s2.notes.get('delegated', [])
+        ex.require(s2, z3.BoolVal(kind == 'ret' and len(calls) == 1), 'not a single delegation to the slice method', 'end')
+        if kind != 'ret' or len(calls) != 1:
+            continue
+        what, cargs, r = calls[0]
+        want = {'eq': 'PartialEq::eq', 'partial_cmp': 'PartialOrd::partial_cmp', 'cmp': 'Ord::cmp', 'hash': 'Hash::hash', 'fmt': 'Debug::fmt'}[which]
+        ex.require(s2, z3.BoolVal(what == want), 'delegates to a different slice method (%s)' % what, 'end')
+        a0 = cargs[0]
+        ok0 = isinstance(a0, Slice) and a0.arr is A
+        ex.require(s2, z3.BoolVal(ok0), 'first operand is not the slice of self', 'end')
+        if ok0:
+            ex.require(s2, z3.And(a0.start == 0, a0.end == N), 'first operand is not all N elements of self', 'end')
+        if binary:
+            a1 = cargs[1]
+            ok1 = isinstance(a1, Slice) and a1.arr is B
+            ex.require(s2, z3.BoolVal(ok1), 'second operand is not the slice of other (operands swapped or wrong)', 'end')
+            if ok1:
+                ex.require(s2, z3.And(a1.start == 0, a1.end == N), 'second operand is not all N elements of other', 'end')
+        else:
+            ex.require(s2, z3.BoolVal(cargs[1] is state), 'the caller\'s Hasher / Formatter is not passed through unchanged', 'end')
+        ex.require(s2, z3.BoolVal(val is r or which == 'hash'), 'returns something other than the slice method\'s result', 'end')
+    return finish(res, ex, t0, paths, unw)
+
+
+@guarded
+def iter_debug(fns, src, nmax, name=None):
+    """Debug for GenericArrayIter is debug_tuple("GenericArrayIter").field(&as_slice()).finish() on the caller's formatter"""
+    N, I, B, J = syms('N', 'index', 'index_back', 'J')
+    res = Result(name or 'delegation.iter_fmt', ['C06', 'C13'], 'all 64-bit N, every position, all formatter states (core::fmt builders uninterpreted)')
+    ex = Exec(fns, src, J, N, nmax=nmax)
+    A = Arr('A', N)
+    st = new_state()
+    it = iter_state(ex, st, A, I, B, N, J)
+    fm = Opaque('caller formatter')
+    fn = ex.pick(ex.index[('Debug', 'GenericArrayIter', 'fmt')])
+    t0, paths, unw = time.time(), 0, 0
+    for (s2, kind, val) in ex.run_fn(st, fn, [Ref(it, ()), fm]):
+        paths += 1
+        unw += kind == 'unwind'
+        calls = s2.notes.get('fmt', [])
+        kinds = [c[0] for c in calls]
+        ex.require(s2, z3.BoolVal(kind == 'ret' and kinds == ['debug_tuple', 'field', 'finish']), 'Debug is not debug_tuple(..).field(..).finish()', 'end')
+        if kind != 'ret' or kinds != ['debug_tuple', 'field', 'finish']:
+            continue
+        ex.require(s2, z3.BoolVal(calls[0][1][0] is fm), 'not the caller\'s formatter', 'end')
+        nm = calls[0][1][1]
+        ex.require(s2, z3.BoolVal(isinstance(nm, Opaque) and 'GenericArrayIter' in nm.tag), 'tuple name is not "GenericArrayIter"', 'end')
+        fld = calls[1][1][1]
+        okf = isinstance(fld, Slice) and fld.arr is A
+        ex.require(s2, z3.BoolVal(okf), 'the field is not the iterator\'s remaining slice', 'end')
+        if okf:
+            ex.require(s2, z3.And(fld.start == I, fld.end == B), 'Debug shows something other than exactly the remaining elements', 'end')
+        ex.require(s2, z3.BoolVal(val is calls[2][2]), 'returns something other than finish()\'s result', 'end')
+    return finish(res, ex, t0, paths, unw)
+
+
+# ----------------------------------------------------------------------------------------------- C09: out-of-bounds remove
+@guarded
+def remove_oob(fns, src, nmax, which='remove', name=None):
+    """remove / swap_remove with idx >= N: never returns, and on the panic's unwind edge the receiver is dropped exactly once. ALL N, idx."""
+    N, IDX, J = syms('N', 'idx', 'J')
+    res = Result(name or which + '.oob', ['C09', 'C03'], 'all 64-bit N and idx >= N; loop-free')
+    ex = Exec(fns, src, J, N, nmax=nmax)
+    ex.self_binding = 'GenericArray'
+    A = Arr('A', N)
+    st = new_state()
+    st.pc.append(UGE(IDX, N))
+    st.status[A] = LIVE
+    fn = ex.pick(ex.defaults[('Remove', which)])
+    t0, paths, unw = time.time(), 0, 0
+    for (s2, kind, val) in ex.run_fn(st, fn, [A, IDX]):
+        paths += 1
+        unw += kind == 'unwind'
+        ex.require(s2, z3.BoolVal(kind == 'unwind'), '%s(idx >= N) returned instead of panicking' % which, 'end')
+        if kind == 'unwind':
+            ex.require(s2, z3.Implies(ULT(J, N), s2.status[A] == DROPPED), 'the receiver\'s elements are not dropped exactly once on the out-of-bounds panic path (leak)', 'end(unwind)')
+    if paths == 0:
+        res.verdict, res.reason = 'inconclusive', 'vacuity: no path'
+    return finish(res, ex, t0, paths, unw)
+
+
+# ----------------------------------------------------------------------------------------------- C04: by-reference receivers, Clone
+@guarded
+def ref_map(fns, src, nmax, which='map', name=None):
+    """trait-default map body with a by-reference receiver (`(&a).map(f)`, which is also `Clone for GenericArray` = `self.map(Clone::clone)`):
+    the source array is only borrowed; the closure / T::clone may panic at every call"""
+    N, J = syms('N', 'J')
+    res = Result(name or 'ref.' + which, ['C04', 'C08'], 'N <= %d, the closure / T::clone may panic at every call' % nmax)
+    ex = Exec(fns, src, J, N, nmax=nmax)
+    ex.V = Arr('F', bv(2 ** 63))
+    A = Arr('A', N)
+    st = new_state()
+    bounded(ex, st, N, nmax)
+    st.status[A] = LIVE
+    if which == 'clone':
+        fn = ex.pick(ex.index[('Clone', 'GenericArray', 'clone')])
+        args = [ArrRef(A)]
+    else:
+        ex.self_binding = '&GenericArray'
+        fn = ex.pick(ex.defaults[('FunctionalSequence', 'map')])
+        args = [ArrRef(A), Opaque('F')]
+    t0, paths, unw = time.time(), 0, 0
+    for (s2, kind, val) in ex.run_fn(st, fn, args):
+        paths += 1
+        unw += kind == 'unwind'
+        inA = ULT(J, N)
+        ex.require(s2, z3.Implies(inA, s2.status[A] == LIVE), 'a borrowed source element was moved out or dropped', 'end')
+        if kind == 'ret':
+            ex.require(s2, z3.Implies(inA, ex.stat(s2, val) == LIVE), 'returned array has a slot that is not initialised', 'end')
+        else:
+            for arr, stt in out_arrays(s2):
+                ex.require(s2, z3.Implies(inA, z3.Or(stt == UNINIT, stt == DROPPED)), 'already-built output element leaked on unwind', 'end(unwind)')
+        ex.require(s2, ex.stat(s2, ex.V) != HELD, 'value produced by caller code lost (neither stored, dropped nor returned)', 'end')
+    return finish(res, ex, t0, paths, unw)
+
+
+# ----------------------------------------------------------------------------------------------- C14: hex index arithmetic
+@guarded
+def hex_arith(fns, src, nmax, lo=0, hi=15, name=None):
+    """generic_hex for lo <= N <= hi (one internal strategy per range), precision None or any usize: every unchecked index in range, the
+    encoder's size precondition holds at both call sites, unreachable_unchecked unreachable, and exactly min(precision, 2N) digits are
+    emitted, all of them digits that were actually encoded. The encoder itself is a stub with its contract (proved by K for the fallback)."""
+    N, J = syms('N', 'J')
+    res = Result(name or 'hex[%d..%d]' % (lo, hi), ['C14'], '%d <= N <= %d, precision None or any usize; chunk loop unrolled (<= %d iterations) with unwinding assertion; encoder stubbed by its contract' % (lo, hi, hi // 1024 + 2))
+    ex = Exec(fns, src, J, N, nmax=nmax, loop_cap=hi // 1024 + 3)
+    A = Arr('A', N, kind='bytes')
+    st = new_state()
+    st.pc += [UGE(N, bv(lo)), ULE(N, bv(hi))]
+    fn = ex.pick(ex.index[(None, None, 'generic_hex')])
+    t0, paths, unw = time.time(), 0, 0
+    for (s2, kind, val) in ex.run_fn(st, fn, [ArrRef(A), Opaque('formatter')]):
+        paths += 1
+        unw += kind == 'unwind'
+        ex.require(s2, z3.BoolVal(kind == 'ret'), 'hex formatting can panic', 'end')
+        if kind != 'ret':
+            continue
+        P = s2.notes.get('precision')
+        want = (N + N) if P is None else z3.If(ULT(P, N + N), P, N + N)
+        written = s2.notes.get('written', [])
+        total = bv(0)
+        for w in written:
+            total = total + (w.end - w.start)
+        if val.variant == 'Ok':
+            ex.require(s2, total == want, 'number of digits emitted is not min(precision, 2N)', 'end')
+        else:
+            ex.require(s2, ULE(total, want), 'more digits emitted than min(precision, 2N) before the sink failed', 'end')
+        # every emitted piece is a prefix of a buffer that was filled by the encoder from consecutive input bytes
+        enc = s2.notes.get('encoded', [])
+        pos = bv(0)      # input bytes accounted for so far
+        for k, w in enumerate(written):
+            match = [e for e in enc if e[1].arr is w.arr]
+            ex.require(s2, z3.BoolVal(bool(match)), 'digits emitted from a buffer the encoder never filled', 'end')
+            if not match:
+                continue
+            srcs, dst = match[min(k, len(match) - 1)]
+            ex.require(s2, z3.And(w.start == dst.start, ULE(w.end - w.start, (srcs.end - srcs.start) + (srcs.end - srcs.start))),
+                       'digits emitted that the encoder did not produce (output longer than 2 * encoded bytes)', 'end')
+            ex.require(s2, srcs.start == pos, 'input bytes are not encoded in index order without gaps', 'end')
+            pos = pos + z3.If(ULE((w.end - w.start + 1) / 2 if is_int() else LSHR(w.end - w.start + 1, bv(1)), srcs.end - srcs.start),
+                              srcs.end - srcs.start, srcs.end - srcs.start)
+    if paths == 0:
+        res.verdict, res.reason = 'inconclusive', 'vacuity: no path'
     return finish(res, ex, t0, paths, unw)
